@@ -356,6 +356,7 @@ def _pure(e):
 
 EXTERNAL_MOD = {'gauss': set(), 'dgmlt1': {5}, 'dgmlt2': {5}, 'divdif': set(), 'cgamma': set(), 'ranlux': {0}}
 MODINFO = {'f': {}, 'c': {}}     # lang -> callee name -> set of argument positions the callee may write
+PUREOUT = {'f': {}, 'c': {}}     # lang -> callee name -> positions the callee assigns on every path before reading them
 
 
 def _maywrite(lang, callee, pos):
@@ -758,6 +759,45 @@ def _never_killed(g, d, val, defs, passed):
             for dn in defs.get(x[1], ()):
                 if dn.id in after:
                     return False
+    return True
+
+
+def assigned_before_read(g, var):
+    """on every path from the entry, `var` is assigned (plain assignment) before any statement reads it or passes it on"""
+    order = g.rpo()
+    preds = g.preds()
+    IN = {i: None for i in order}
+    IN[g.entry.id] = False
+    OUT = {}
+    changed = True
+    while changed:
+        changed = False
+        for i in order:
+            n = g.nodes[i]
+            if i != g.entry.id:
+                ps = [OUT[p] for p in preds[i] if p in OUT]
+                if not ps:
+                    continue
+                inn = all(ps)
+            else:
+                inn = False
+            d = node_def(n)
+            out = inn or (d == var and n.kind == 'assign' and n.stmt[1] == ('var', var))
+            if IN[i] != inn or OUT.get(i) != out:
+                IN[i], OUT[i] = inn, out
+                changed = True
+    for i in order:
+        n = g.nodes[i]
+        if IN[i] is None or IN[i]:
+            continue
+        uses = set(node_uses(n))
+        if n.kind == 'call':
+            for a in n.stmt[2]:
+                uses |= ir.vars_of(a)
+        if n.kind == 'assign' and n.stmt[1] == ('var', var):
+            uses = ir.vars_of(n.stmt[2])
+        if var in uses:
+            return False
     return True
 
 
@@ -1745,6 +1785,20 @@ def compare_path_summaries(gf, gc, fparams, cparams, fout=(), cout=(), fstart=No
                 o.append((c,) + tuple(p[1:]))
         return o
     pf, pc = prune(pf), prune(pc)
+
+    def mask_out(ps, lang):
+        # the value handed in at a position the callee overwrites before reading it is immaterial
+        po = PUREOUT.get(lang, {})
+        out = []
+        for p in ps:
+            calls = []
+            for c in p[1]:
+                if c[0] == 'call' and po.get(c[1]):
+                    c = c[:2] + tuple(('var', '$out') if i in po[c[1]] else a for i, a in enumerate(c[2:]))
+                calls.append(c)
+            out.append((p[0], tuple(calls) if isinstance(p[1], tuple) else calls) + tuple(p[2:]))
+        return out
+    pf, pc = mask_out(pf, 'f'), mask_out(pc, 'c')
     b = bisim if bisim is not None else Bisim(gf, gc, fparams, cparams)
     mism = []
     left = list(pc)
